@@ -326,3 +326,80 @@ pub fn c05_base256_lengths(seed: u64, max_payload: u64) -> Phase {
         wall_cap_s: 0,
     }
 }
+
+/// Dimension aliases of every catalogue size: off-by-one heights/widths, transposition, the same pixel
+/// count framed with another catalogue width, doubled/halved dimensions, dimensions shifted by 256 and
+/// 65536 (truncating casts), ragged variants - each with three fills and, where the pixel count allows,
+/// with the pixels of a genuine rendering of the catalogue size re-framed.
+pub fn dimension_aliases(prop: &'static str, seed: u64) -> Phase {
+    // (size, variant) -> (len, width)
+    const NVAR: u64 = 22;
+    let total = N_SIZES as u64 * NVAR * 4;
+    let make = move |_ctx: &Ctx, i: u64| -> Trace {
+        let fill = i % 4;
+        let r = i / 4;
+        let var = r % NVAR;
+        let s = &SIZES[(r / NVAR) as usize];
+        let (h, w) = (s.rows, s.cols);
+        let n = h * w;
+        let (len, width): (usize, usize) = match var {
+            0 => ((h + 1) * w, w),
+            1 => ((h - 1) * w, w),
+            2 => (h * (w + 1), w + 1),
+            3 => (h * (w - 1), w - 1),
+            4 => (n, h),             // transposed framing
+            5 => (n, n),             // one row
+            6 => (n, 1),             // one column
+            7 => (n + 1, w),
+            8 => (n - 1, w),
+            9 => (n + w / 2, w),
+            10 => (h * (w + 256), w + 256),
+            11 => ((h + 256) * w, w),
+            12 => (2 * n, w),
+            13 => (2 * n, 2 * w),
+            14 => (n, 2 * w),
+            15 => (n, w / 2),
+            16 => (n, w + 256),
+            17 => (n + 256 * h, w + 256),
+            18 => (h * (w + 65536), w + 65536),
+            19 => {
+                // the pixel count of this size framed with the width of the next catalogue size
+                let o = &SIZES[(s.idx + 1) % N_SIZES];
+                (n, o.cols)
+            }
+            20 => {
+                let o = &SIZES[(s.idx + 7) % N_SIZES];
+                ((n / o.cols.max(1)) * o.cols, o.cols)
+            }
+            _ => (n + 256, w),
+        };
+        let mut faults = Vec::new();
+        let producer;
+        if fill == 3 {
+            // a genuine rendering of the catalogue size, re-framed / cut / extended to (len, width)
+            producer = Producer::Raw { size: s.idx, data: seeded_data(seed, s.idx, var) };
+            if len < n {
+                faults.push(Fault::new("geo_trunc", Op::GeoTrunc { len: len as u32 }));
+            } else if len > n {
+                faults.push(Fault::new("geo_extend", Op::GeoExtend { bits: (0..len - n).map(|j| j % 3 == 0).collect() }));
+            }
+            faults.push(Fault::new("geo_width_skew", Op::GeoWidth { w: width as u32 }));
+        } else {
+            producer = Producer::Stream { data: vec![] };
+            let bits: Vec<bool> = (0..len)
+                .map(|j| match fill {
+                    0 => false,
+                    1 => true,
+                    _ => j % 2 == 0,
+                })
+                .collect();
+            faults.push(Fault::new("geo_replace", Op::GeoReplace { bits, w: width as u32 }));
+        }
+        Trace { prop: prop.into(), producer, faults }
+    };
+    Phase {
+        source: Source::Sweep { name: "sweep_dimension_aliases".into(), prop: prop.into(), make: Box::new(make) },
+        runs: total,
+        wall_cap_s: 0,
+    }
+}
